@@ -92,6 +92,8 @@ def replay_dir(cexdir):
         if res and res.get("diverged"):
             return False, "diverged: " + res["diverged"]
         return False, "process did not crash"
+    if ("REPLAY-ASSERT-FAILED " + ob + "\n") in out and not race:
+        return True, "assertion %s failed natively%s" % (ob, " (the process panicked later in the same run)" if crashed else "")
     if crashed:
         return False, "process crashed during replay (expected assertion %s)" % ob
     if res is None:
